@@ -244,7 +244,8 @@ class LoopBody:
         st = dict(gate=gate, num_qubit=n, R0=mk0(np.zeros(2 * n, dtype=np.uint8)), S0=mk0(np.eye(2 * n, dtype=np.uint8)),
                   retR=arr(I['retR']), retS=arr(I['retS']))
         missing = [p for p in info['params'] if p not in st]
-        assert not missing, f'loop body reads locals the contract does not provide: {missing}'
+        if missing:
+            raise sched.Unsupported(f'loop body of to_symplectic_form reads locals the loop contract does not describe: {missing} (loop restructured?)')
         with shimmed([], extra={(cl, 'clifford_multiply'): mult_stub, (cl, '_basic_clifford_dagger_f2'): basic_stub}):
             res = body(**{p: st[p] for p in info['params']})
         out = dict(ncalls=len(calls), keys=keys, new=(res.get('retR'), res.get('retS')), fresh=fresh)
@@ -374,6 +375,11 @@ def _gate_placements(n):
 
 
 def job_trace(tier, rng, n):
+    from vf.prover import harness_guard
+    return harness_guard(lambda: _job_trace(tier, rng, n), f'{PROP}.CliffordCircuit.trace.harness[n={n}]', ['numqi.sim.clifford:CliffordCircuit.to_symplectic_form'])
+
+
+def _job_trace(tier, rng, n):
     """init / exit / order of the real to_symplectic_form (clifford_multiply stubbed by a recorder), cache read path,
     delegation of apply_pauli_F2 and to_universal_circuit. Concrete finite enumeration of gate lists of length 1 and 2."""
     out = []
@@ -473,6 +479,11 @@ def cl_real_basic(key):
 
 
 def job_cache_invariant(tier, rng):
+    from vf.prover import harness_guard
+    return harness_guard(lambda: _job_cache_invariant(tier, rng), f'{PROP}.CliffordCircuit.cache_invariant.harness', ['numqi.sim.clifford:CliffordCircuit'])
+
+
+def _job_cache_invariant(tier, rng):
     """object invariant of CliffordCircuit (ghost view = gate_index_list): '_R is None or (_R,_S) is the tableau of the view'.
     Every public mutator either leaves the view unchanged or appends exactly one well-formed gate AND invalidates the cache.
     The index argument is a symbolic Python int in [0,3] (forked), the pre-state is arbitrary (sentinels)."""
@@ -532,7 +543,10 @@ def job_cache_invariant(tier, rng):
             conf, info = _replay_history(bad)
             rec['native'] = dict(confirmed=conf, info=info)
             if not conf:
-                rec['verdict'] = 'fault'
+                # the frame condition (invalidate on append) is sufficient, not necessary: without a confirmed failing
+                # history this is 'not proved', never a violation and not an engine fault
+                rec['verdict'] = 'undecided'
+                rec['detail'] += ' [history replay against the dense oracle does not fail: obligation undecided]'
         out.append(rec)
     return out
 
@@ -765,7 +779,7 @@ def jobs(tier):
         J.append(('job_trace', dict(n=n)))
     J.append(('job_cache_invariant', {}))
     J.append(('job_basic_gates_exact', {}))
-    J.append(('job_histories', dict(n=1, length=4 if tier == 'quick' else 5)))
+    J.append(('job_histories', dict(n=1, length=5)))
     J.append(('job_histories', dict(n=2, length=3)))
     J.append(('job_random_histories', dict(n=3, count=30 if tier == 'quick' else 200, length=8)))
     J.append(('job_clifford_group', dict(n=1)))
